@@ -252,25 +252,25 @@ def check_rotations(case):
         if not mapped:
             # refusal: vector field lacking the mapping for a or b
             try:
-                r = f.rotate90(dims[a], dims[b], k=k, **kw)
+                r = f.rotate90(dims[a], dims[b], **gen.nd_kw(k=k, **kw))
             except Exception:  # noqa: BLE001
                 if snapshot(f) != snap:
                     raise Violation("refused-but-modified", f"axes ({a},{b}) k={k}") from None
                 continue
             raise Violation("unmapped-not-refused", f"vector field without mapping for axes ({dims[a]},{dims[b]}) rotated")
-        gf = f.rotate90(dims[a], dims[b], k=k, **kw)
+        gf = f.rotate90(dims[a], dims[b], **gen.nd_kw(k=k, **kw))
         require(isinstance(gf, df.Field) and gf is not f, "copy-returns-new-object")
         verify_result(case, gf, lat, arr, valid, coa, a, b, k, R, "copy")
         if snapshot(f) != snap:
             raise Violation("copy-modified-original", f"axes ({a},{b}) k={k}")
         # consistency of region / mesh / field
-        gm = mesh.rotate90(dims[a], dims[b], k=k, **kw)
-        gr = mesh.region.rotate90(dims[a], dims[b], k=k, **kw)
+        gm = mesh.rotate90(dims[a], dims[b], **gen.nd_kw(k=k, **kw))
+        gr = mesh.region.rotate90(dims[a], dims[b], **gen.nd_kw(k=k, **kw))
         require(mesh_close(gf.mesh, gm, atol), "field-mesh-inconsistent", f"({a},{b}) k={k}")
         require(reg_close(gm.region, gr, atol) and tuple(gm.region.units) == tuple(gr.units), "mesh-region-inconsistent")
         # k and k mod 4 agree
         if not (-1 < k < 4):
-            g4 = f.rotate90(dims[a], dims[b], k=k % 4, **kw)
+            g4 = f.rotate90(dims[a], dims[b], **gen.nd_kw(k=k % 4, **kw))
             require(mesh_close(g4.mesh, gf.mesh, atol)
                     and np.allclose(g4.array, gf.array, rtol=1e-12, atol=1e-12) and np.array_equal(g4.valid, gf.valid),
                     "k-mod-4", f"({a},{b}) k={k} vs {k % 4}")
@@ -299,20 +299,20 @@ def check_rotations(case):
         a, b, k = mapped_combos[pick % len(mapped_combos)]
         kw = {} if ref_arg is None else {"reference_point": ref_arg}
         _, f2, _, _ = build(case)
-        r = f2.rotate90(dims[a], dims[b], k=k, inplace=True, **kw)
+        r = f2.rotate90(dims[a], dims[b], **gen.nd_kw(k=k, inplace=True, **kw))
         require(r is f2, "inplace-not-self")
         verify_result(case, f2, lat, arr, valid, coa, a, b, k, R, "inplace")
         # region and mesh in place
         m2 = gen.build_mesh(g, subs=case["subs"])
-        rm = m2.rotate90(dims[a], dims[b], k=k, inplace=True, **kw)
+        rm = m2.rotate90(dims[a], dims[b], **gen.nd_kw(k=k, inplace=True, **kw))
         require(rm is m2, "inplace-mesh-not-self")
-        mc = mesh.rotate90(dims[a], dims[b], k=k, **kw)
+        mc = mesh.rotate90(dims[a], dims[b], **gen.nd_kw(k=k, **kw))
         require(mesh_close(m2, mc, atol), "inplace-mesh-differs-from-copy")
         if tuple(m2.region.units) != tuple(mc.region.units):
             raise Violation("inplace-units", f"in place {m2.region.units}, copy {mc.region.units} (k={k})")
         r2 = gen.build_region(g)
-        rr = r2.rotate90(dims[a], dims[b], k=k, inplace=True, **kw)
-        rc = mesh.region.rotate90(dims[a], dims[b], k=k, **kw)
+        rr = r2.rotate90(dims[a], dims[b], **gen.nd_kw(k=k, inplace=True, **kw))
+        rc = mesh.region.rotate90(dims[a], dims[b], **gen.nd_kw(k=k, **kw))
         require(rr is r2 and reg_close(r2, rc, atol), "inplace-region-differs-from-copy")
         if tuple(r2.units) != tuple(rc.units):
             raise Violation("inplace-units", f"region in place {r2.units}, copy {rc.units} (k={k})")
@@ -330,7 +330,7 @@ def check_refuse_inplace(case):
     k = 1 + case["drop"]
     for inplace in (False, True):
         try:
-            f.rotate90(dims[a], dims[b], k=k, inplace=inplace)
+            f.rotate90(dims[a], dims[b], **gen.nd_kw(k=k, inplace=inplace))
         except Exception:  # noqa: BLE001
             if snapshot(f) != snap:
                 shp = f.array.shape
